@@ -253,6 +253,12 @@ static Op gen_pattern_op_unfiltered(Rng& r, bool with_input) {
       u = gen_in_path(r);
       op.args[10] = "https://example.com/base/";
     }
+    if (r.chance(1, 14)) {
+      // a relative reference WITHOUT any base: it denotes no URL, so nothing can match it
+      u = r.chance(1, 2) ? gen_in_path(r) : gen_in_path(r).substr(1) + (r.chance(1, 3) ? "?q=1" : "");
+      if (r.chance(1, 4)) u = "//" + std::string(pick(r, hosts)) + gen_in_path(r);
+      op.args[10].reset();
+    }
     if (r.chance(1, 4)) {
       // near miss: flip bit 0x20 of one character after the authority (letter case, or the punctuation partner
       // ^~ [{ ]} \| @` that a careless case-insensitive comparison would fold)
